@@ -51,6 +51,9 @@ CHECKS["C14"] = ("round-trip and differential testing against reference codecs (
 CHECKS["C15"] = ("exhaustive (method x receiver x argument-tuple) enumeration against an independent Go implementation of the documented (JavaScript Array/String) semantics; rapid longer receivers",
          "Every array and string method with each optional argument omitted or given, boundary indexes {-len-1 .. len+1}, 0..3 variadic items, callbacks using element / index / array; the return value and the receiver afterwards are both observed and compared with the model (mutators change the receiver exactly as specified, others leave it untouched).",
          "Model follows docs/array_methods.md and docs/strings.md, JavaScript semantics where the docs defer to Node.js; byte-vs-code-point questions on non-ASCII strings are not asserted.")
+CHECKS["C17"] = ("exhaustive signature enumeration with reflect.MakeFunc-manufactured Go functions, a fixture struct and the generic converter; round-trip oracle on recorded Go-side arguments and script-side results",
+         "All signatures of arity 0..3 over {string,bool,int,int64,float64} x result kinds, sized integer/float kinds at arity 1..2, struct methods through RegisterReflectClass and utils.ConvertFromIndex[T] for every kind, with boundary argument values (width limits, +-0.0, subnormals, empty / non-UTF-8 / 64 KiB strings): the Go side must receive exactly the passed value, the script exactly the returned one, a non-representable value must raise a catchable error, and no signature may panic the interpreter.",
+         "Exact transfer asserted for matching kinds only; mismatched kinds are checked for 'value or catchable error'.")
 NOT_YET = {
 }
 
